@@ -759,6 +759,21 @@ class Interp:
                     return inner
                 return a0
             return a0 if a0 is not None else TOP
+        if name in ("into", "try_into") and len(args) == 1 and d0 is not None and d0[0] != "tok":
+            # `x.into()` / `x.try_into()` resolve to core's blanket impls; the conversion itself is the crate's (possibly
+            # macro-generated) `From<T> for U` / `TryFrom<T> for U`, found by the two types
+            mconv = re.match(r"^<(.+) as std::convert::(?:Try)?Into<(.+)>>::(?:try_)?into$", full or path or "")
+            if mconv:
+                tsrc, tdst = mconv.group(1), mconv.group(2)
+                tr = "TryFrom" if name == "try_into" else "From"
+                fn = "try_from" if name == "try_into" else "from"
+                for cand in ("<%s as std::convert::%s<%s>>::%s" % (tdst, tr, tsrc, fn),):
+                    if cand in self.f.bodies:
+                        return self.call_body(cand, args, depth + 1)
+                suffix = "<impl std::convert::%s<%s> for %s>::%s" % (tr, tsrc, tdst, fn)
+                for cand in self.f.bodies:
+                    if cand.endswith(suffix):
+                        return self.call_body(cand, args, depth + 1)
         if name in ("into", "from") and len(args) == 1:
             # a conversion implemented in this crate is evaluated; foreign conversions (From<[u8;32]> for Hash, ...) carry the value
             for pth in (res_path, path):
